@@ -5,8 +5,9 @@
    optimiser FINDS the global minimum (recovery of the generating parameters, re-fitting, unit covariance of the fitted curve) is
    validated on the implementation, not proved; the theorems state what a minimiser must satisfy.
    Property theorems only, each closed by `exact` + Print Assumptions. *)
-From Coq Require Import Reals Lra List Bool QArith.
-From PG Require Import Lib.Num Lib.Py Fit.FitLogic Fit.FitTheorems.
+From Coq Require Import String.
+From Coq Require Import Reals Lra List Bool QArith Permutation.
+From PG Require Import Lib.Num Lib.Py Fit.FitLogic Fit.FitTheorems Fit.FitCovariance.
 Import ListNotations.
 Open Scope R_scope.
 
@@ -40,6 +41,77 @@ Theorem rmse_sq_is_rmse_squared : forall f n range, (0 < n)%nat -> range <> 0 ->
   rmse_sq RNum f n range = rmse f n range * rmse f n range.
 Proof. exact rmse_sq_is_square. Qed.
 Print Assumptions rmse_sq_is_rmse_squared.
+
+(* bounds (and start values) are dictionaries keyed by parameter NAME. The vector handed to the optimiser at position i is the entry of
+   param_names[i], for ANY order in which the user wrote the dictionary (and a missing name is a KeyError, never another parameter's entry) *)
+Theorem bound_vector_is_by_name : forall (names : list String.string) (d : list (String.string * (R * R))) v,
+  by_name names d = Ok v ->
+  length v = length names /\ forall i n, nth_error names i = Some n -> exists b, assoc n d = Some b /\ nth_error v i = Some b.
+Proof. exact (@by_name_spec (R * R)). Qed.
+Print Assumptions bound_vector_is_by_name.
+Theorem bound_vector_ignores_key_order : forall (names : list String.string) (d d' : list (String.string * (R * R))),
+  Permutation d d' -> NoDup (map fst d) -> by_name names d = by_name names d'.
+Proof. exact (@by_name_perm (R * R)). Qed.
+Print Assumptions bound_vector_ignores_key_order.
+Theorem default_bounds_by_position : forall (names : list String.string) (defaults : list (R * R)),
+  NoDup names -> length defaults = length names -> by_name names (combine names defaults) = Ok defaults.
+Proof. exact (@by_name_defaults (R * R)). Qed.
+Print Assumptions default_bounds_by_position.
+Theorem user_bounds_are_the_bounds_in_force : forall names defaults user d,
+  bounds_in_force RNum names defaults user = Ok d ->
+  (user = [] /\ d = combine names defaults) \/ (user <> [] /\ d = user /\ Forall (fun kv => In (fst kv) names) user).
+Proof. exact bounds_in_force_spec. Qed.
+Print Assumptions user_bounds_are_the_bounds_in_force.
+(* fitted parameters respect the bounds in force, BY NAME. Partial: premise on least_squares *)
+Theorem fitted_parameters_respect_named_bounds_partial :
+  forall (calc_loading : bool) (M : list R -> R -> R)
+         (lsq : (list R -> list R) -> list R -> list (R * R) -> option (list R * list R)),
+  (forall f x0 b x fv, lsq f x0 b = Some (x, fv) -> fv = f x /\ in_bounds b x) ->
+  forall names d guess data x fv,
+    fit_named RNum calc_loading M lsq names d guess data = Ok (x, fv) ->
+    length x = length names
+    /\ forall i n, nth_error names i = Some n ->
+       exists b v, assoc n d = Some b /\ nth_error x i = Some v /\ fst b <= v <= snd b.
+Proof. exact fit_named_respects_named_bounds. Qed.
+Print Assumptions fitted_parameters_respect_named_bounds_partial.
+Theorem fit_ignores_dictionary_key_order :
+  forall (calc_loading : bool) (M : list R -> R -> R) lsq names d d' guess guess' data,
+    Permutation d d' -> NoDup (map fst d) -> Permutation guess guess' -> NoDup (map fst guess) ->
+    fit_named RNum calc_loading M lsq names d guess data = fit_named RNum calc_loading M lsq names d' guess' data.
+Proof. exact fit_named_key_order_irrelevant. Qed.
+Print Assumptions fit_ignores_dictionary_key_order.
+Theorem guess_dictionary_is_trimmed_by_name : forall d guess out, clamp_named RNum d guess = Ok out ->
+  map fst out = map fst guess
+  /\ Forall2 (fun g o => exists b, assoc (fst g) d = Some b /\ snd o = clamp RNum (fst b) (snd b) (snd g)
+                          /\ (fst b <= snd b -> fst b <= snd o <= snd b)) guess out.
+Proof. exact clamp_named_spec. Qed.
+Print Assumptions guess_dictionary_is_trimmed_by_name.
+
+(* the normalisation "as documented": the range is max - min of the fitted rows - non-negative, positive as soon as two values differ, and
+   the same for ANY order of the rows (increasing, a desorption branch running from high to low pressure, unsorted arrays); hence the
+   reported error is non-negative and order independent, and so is the best-of-list choice *)
+Theorem range_is_max_minus_min : forall l : list R, l <> [] ->
+  exists mx mn, In mx l /\ In mn l /\ (forall v, In v l -> mn <= v <= mx) /\ range_of RNum l = mx - mn.
+Proof. exact range_of_is_max_minus_min. Qed.
+Print Assumptions range_is_max_minus_min.
+Theorem range_positive : forall (l : list R) a b, In a l -> In b l -> a < b -> 0 < range_of RNum l.
+Proof. exact range_of_pos. Qed.
+Print Assumptions range_positive.
+Theorem range_ignores_row_order : forall l l' : list R, Permutation l l' -> range_of RNum l = range_of RNum l'.
+Proof. exact range_of_perm. Qed.
+Print Assumptions range_ignores_row_order.
+Theorem reported_error_is_documented_and_nonnegative : forall calc_loading (data : list (R * R)) fv,
+  data <> [] -> 0 < model_range RNum calc_loading data ->
+  reported_rmse_sq RNum calc_loading data fv
+  = rmse fv (length data) (model_range RNum calc_loading data) * rmse fv (length data) (model_range RNum calc_loading data)
+  /\ 0 <= rmse fv (length data) (model_range RNum calc_loading data).
+Proof. exact reported_rmse_sq_is_documented. Qed.
+Print Assumptions reported_error_is_documented_and_nonnegative.
+Theorem reported_error_ignores_row_order : forall calc_loading (data data' : list (R * R)) fv fv',
+  Permutation data data' -> Permutation fv fv' ->
+  reported_rmse_sq RNum calc_loading data fv = reported_rmse_sq RNum calc_loading data' fv'.
+Proof. exact reported_rmse_order_independent. Qed.
+Print Assumptions reported_error_ignores_row_order.
 
 (* best of several candidate models: converged, minimal reported error, earliest among ties; for any list of attempts *)
 Theorem guess_is_argmin : forall (att : list (option R)) (p : nat),
@@ -89,8 +161,65 @@ Theorem henry_unit_covariance_partial : forall c K data, 0 < c ->
 Proof. exact henry_unit_covariance. Qed.
 Print Assumptions henry_unit_covariance_partial.
 
+(* the same for ANY model family whose parameter vector can absorb the unit change by entry-wise factors fs, with the bounds in force B
+   transported along - and the formulas GENERATED from pygaps/modelling/*.py (Gen/FormulasGen.v) have that shape: loading unit for Henry,
+   Langmuir, DSLangmuir, TSLangmuir, BET, GAB, Quadratic, TemkinApprox, Toth, Freundlich, DR, DA; pressure unit for the first nine
+   (partial: minimisers, not what least_squares finds; Jensen-Seaton, Virial, FHVST, WVST and the temperature unit are validated only) *)
+Theorem loading_unit_maps_minimisers_partial : forall (M : list R -> R -> R) (fs : list R) (c : R),
+  Forall (fun f => f <> 0) fs -> (forall y p, length y = length fs -> M (scale fs y) p = c * M y p) ->
+  forall (B : list R -> Prop) data x, length x = length fs -> is_minimiser_in B M data x ->
+    is_minimiser_in (fun z => B (scale (map Rinv fs) z)) M (map (fun d => (fst d, c * snd d)) data) (scale fs x)
+    /\ forall p, M (scale fs x) p = c * M x p.
+Proof. exact loading_unit_maps_minimisers. Qed.
+Print Assumptions loading_unit_maps_minimisers_partial.
+Theorem pressure_unit_maps_minimisers_partial : forall (M : list R -> R -> R) (fs : list R) (c : R),
+  Forall (fun f => f <> 0) fs -> (forall y p, length y = length fs -> M (scale fs y) (c * p) = M y p) ->
+  forall (B : list R -> Prop) data x, length x = length fs -> is_minimiser_in B M data x ->
+    is_minimiser_in (fun z => B (scale (map Rinv fs) z)) M (map (fun d => (c * fst d, snd d)) data) (scale fs x)
+    /\ forall p, M (scale fs x) (c * p) = M x p.
+Proof. exact pressure_unit_maps_minimisers. Qed.
+Print Assumptions pressure_unit_maps_minimisers_partial.
+Theorem generated_model_formulas_absorb_unit_changes : forall c, 0 < c ->
+  (forall y p, length y = 1%nat -> M_Henry (scale [c] y) p = c * M_Henry y p)
+  /\ (forall y p, length y = 2%nat -> M_Langmuir (scale [1; c] y) p = c * M_Langmuir y p)
+  /\ (forall y p, length y = 4%nat -> M_DSLangmuir (scale [c; 1; c; 1] y) p = c * M_DSLangmuir y p)
+  /\ (forall y p, length y = 6%nat -> M_TSLangmuir (scale [c; c; c; 1; 1; 1] y) p = c * M_TSLangmuir y p)
+  /\ (forall y p, length y = 3%nat -> M_BET (scale [c; 1; 1] y) p = c * M_BET y p)
+  /\ (forall y p, length y = 3%nat -> M_GAB (scale [c; 1; 1] y) p = c * M_GAB y p)
+  /\ (forall y p, length y = 3%nat -> M_Quadratic (scale [c; 1; 1] y) p = c * M_Quadratic y p)
+  /\ (forall y p, length y = 3%nat -> M_TemkinApprox (scale [c; 1; 1] y) p = c * M_TemkinApprox y p)
+  /\ (forall y p, length y = 3%nat -> M_Toth (scale [c; 1; 1] y) p = c * M_Toth y p)
+  /\ (forall y p, length y = 2%nat -> M_Freundlich (scale [c; 1] y) p = c * M_Freundlich y p)
+  /\ (forall rt y p, length y = 2%nat -> M_DR rt (scale [c; 1] y) p = c * M_DR rt y p)
+  /\ (forall rt y p, length y = 3%nat -> M_DA rt (scale [c; 1; 1] y) p = c * M_DA rt y p)
+  /\ (forall y p, length y = 1%nat -> M_Henry (scale [/ c] y) (c * p) = M_Henry y p)
+  /\ (forall y p, length y = 2%nat -> M_Langmuir (scale [/ c; 1] y) (c * p) = M_Langmuir y p)
+  /\ (forall y p, length y = 4%nat -> M_DSLangmuir (scale [1; / c; 1; / c] y) (c * p) = M_DSLangmuir y p)
+  /\ (forall y p, length y = 6%nat -> M_TSLangmuir (scale [1; 1; 1; / c; / c; / c] y) (c * p) = M_TSLangmuir y p)
+  /\ (forall y p, length y = 3%nat -> M_BET (scale [1; / c; / c] y) (c * p) = M_BET y p)
+  /\ (forall y p, length y = 3%nat -> M_GAB (scale [1; 1; / c] y) (c * p) = M_GAB y p)
+  /\ (forall y p, length y = 3%nat -> M_Quadratic (scale [1; / c; / (c * c)] y) (c * p) = M_Quadratic y p)
+  /\ (forall y p, length y = 3%nat -> M_TemkinApprox (scale [1; / c; 1] y) (c * p) = M_TemkinApprox y p)
+  /\ (forall y p, length y = 3%nat -> M_Toth (scale [1; / c; 1] y) (c * p) = M_Toth y p).
+Proof. exact generated_formulas_absorb_unit_changes. Qed.
+Print Assumptions generated_model_formulas_absorb_unit_changes.
+(* spelled out for one family with its bounds (all parameters >= 0): Toth *)
+Theorem toth_unit_covariance_partial : forall c data x, 0 < c -> length x = 3%nat ->
+  is_minimiser_in (Forall (fun v => 0 <= v)) M_Toth data x ->
+  is_minimiser_in (Forall (fun v => 0 <= v)) M_Toth (map (fun d => (fst d, c * snd d)) data) (scale [c; 1; 1] x)
+  /\ is_minimiser_in (Forall (fun v => 0 <= v)) M_Toth (map (fun d => (c * fst d, snd d)) data) (scale [1; / c; 1] x)
+  /\ (forall p, M_Toth (scale [c; 1; 1] x) p = c * M_Toth x p)
+  /\ (forall p, M_Toth (scale [1; / c; 1] x) (c * p) = M_Toth x p).
+Proof. exact toth_unit_covariance. Qed.
+Print Assumptions toth_unit_covariance_partial.
+
 (* hypotheses are satisfiable / the model executes: three attempts (one failed, two tied) -> the first of the tied ones *)
 Example best_of_example : best_of QNum [None; Some (3 # 2); Some (1 # 2); Some (1 # 2)]%Q = Ok 2%nat.
+Proof. vm_compute. reflexivity. Qed.
+Example named_bounds_example :
+  by_name ["K"; "n_m"]%string [("n_m", (0, 4)); ("K", (0, 100))]%string = Ok [(0, 100); (0, 4)].
+Proof. reflexivity. Qed.
+Example range_example_decreasing_rows : range_of QNum [5; 3; 4; 1]%Q = 4%Q.
 Proof. vm_compute. reflexivity. Qed.
 Example minimiser_exists : is_minimiser henryM [(1, 2); (2, 4)] [2].
 Proof.
